@@ -2,7 +2,7 @@
 # usage: tools/try_seeded_wt.sh <seeded dir> <check id> [more check ids]
 # Like try_seeded.sh, but leaves /repo alone: the patch is applied to a scratch worktree of /repo's HEAD (removed afterwards)
 # and the checks run against it through VERIF_REPO.
-D="$1"; shift
+D="$(cd "$1" && pwd)"; shift
 WT=$(mktemp -d /tmp/wt_try_XXXXXX); rmdir "$WT"
 git -C /repo worktree add -q --detach "$WT" HEAD || exit 2
 trap 'git -C /repo worktree remove --force "$WT" >/dev/null 2>&1' EXIT
